@@ -571,7 +571,7 @@ pub fn run(ctx: &Ctx) {
     // E1
     let long = || gen::text(200);
     let arg_s = || gen::text(6);
-    ctx.random("random_single", ctx.pick(150_000, 1_500_000), move || {
+    ctx.random("random_single", ctx.pick(150_000, 15_000_000), move || {
         let f0 = (proptest::sample::select(F0.to_vec()), long()).prop_map(|(f, s)| Case { filter: f.into(), input: st(&s), args: vec![] });
         let f1 = (proptest::sample::select(F1S.to_vec()), long(), arg_s()).prop_map(|(f, s, a)| Case { filter: f.into(), input: st(&s), args: vec![st(&a)] });
         let f2 = (proptest::sample::select(F2S.to_vec()), long(), arg_s(), arg_s()).prop_map(|(f, s, a, b)| Case { filter: f.into(), input: st(&s), args: vec![st(&a), st(&b)] });
@@ -579,10 +579,10 @@ pub fn run(ctx: &Ctx) {
         let tr = (proptest::sample::select(vec!["truncate", "truncatewords"]), long(), 0i64..220, proptest::option::of(arg_s())).prop_map(|(f, s, n, e)| Case { filter: f.into(), input: st(&s), args: std::iter::once(RV::Int(n)).chain(e.map(|e| st(&e))).collect() });
         prop_oneof![3 => f0, 3 => f1, 2 => f2, 2 => sl, 2 => tr]
     }, oracle);
-    ctx.random("random_laws", ctx.pick(60_000, 600_000), move || {
+    ctx.random("random_laws", ctx.pick(60_000, 6_000_000), move || {
         (proptest::sample::select(vec!["split_join", "strip_lr", "truncate_len", "size_append"]), gen::text(60), gen::text(3), 0i64..70).prop_map(|(law, s, a, n)| Law { law: law.into(), s, a, n })
     }, law_oracle);
-    ctx.random("chains", ctx.pick(150_000, 1_000_000), move || {
+    ctx.random("chains", ctx.pick(150_000, 8_000_000), move || {
         let link = prop_oneof![
             4 => proptest::sample::select(F0.to_vec()).prop_map(|f| (f.to_string(), vec![])),
             2 => proptest::sample::select(vec![",", " ", "a", "zz"]).prop_map(|s| ("split".to_string(), vec![st(s)])),
